@@ -207,7 +207,8 @@ def gen(rng, n_state, n_e2e):
         opened = [x for x in lines + switches if rng.random() < 0.2]
         backups = [l.name for l in ps.lines if l.is_backup]
         failed = [b for b in backups if rng.random() < 0.2]
-        timers = {n.name: str(rng.choice([F(0), F(0), F(0), F(1, 2), F(1)])) for n in ps.child_network_list if hasattr(n, "controller")}
+        # (a timer that is not a whole number of steps passes zero and is negative in the pass in which it runs out)
+        timers = {n.name: str(rng.choice([F(0), F(0), F(0), F(1, 2), F(1), F(-3, 4), F(-1, 2), F(1, 4)])) for n in ps.child_network_list if hasattr(n, "controller")}
         closed = []   # backups are open whenever islands are formed (asserted on every real call in the e2e cases)
         cases.append({"kind": "state", "spec": spec, "open": opened, "failed": failed, "timers": timers, "closed_backups": closed})
     nt = 0
